@@ -157,6 +157,22 @@ def run(chk):
             specials.append((f'{vn} file with that extension, one property set', lambda V=V: V.File(name='f', extensions={'x-vf-c01-defaults-ext': {'analyst': 'a'}}), False))
         specials.append(('2.0 observed-data member with an all-default extension', lambda: stix2.v20.ObservedData(objects={'0': {'type': 'file', 'name': 'f', 'extensions': {'x-vf-c01-defaults-ext': {'score': 0}}}}, first_observed=G.T1, last_observed=G.T1, number_observed=1), False))
         specials.append(('2.1 bundle of a file with an all-default extension', lambda: stix2.v21.Bundle(stix2.v21.File(name='f', extensions={'x-vf-c01-defaults-ext': {}})), False))
+        # untyped content kept verbatim, nested far deeper than any typed content (what the library builds and writes, it reads back)
+        def deep(n, leaf='x'):
+            v = leaf
+            for i in range(n): v = {'k': v} if i % 2 else [v]
+            return v
+        for n in (20, 63, 64, 70, 150):
+            specials.append((f'custom property nested {n} levels', lambda n=n: stix2.v21.Identity(name='n', x_vf=deep(n), allow_custom=True), True))
+            specials.append((f'dictionary property value nested {n} levels', lambda n=n: stix2.v21.Process(pid=1, environment_variables={'K': deep(n)}), False))
+            specials.append((f'unregistered extension-definition extension nested {n} levels', lambda n=n: stix2.v21.Identity(name='n', extensions={'extension-definition--a932fcc6-e032-476c-826f-cb970a5a1ade': {'extension_type': 'property-extension', 'p': deep(n)}}), False))
+            specials.append((f'bundle of an object with a custom property nested {n} levels', lambda n=n: stix2.v21.Bundle(stix2.v20.Identity(name='n', identity_class='individual', x_vf=deep(n), allow_custom=True), allow_custom=True), True))
+        # custom properties given through the custom_properties keyword in an order that is not alphabetical, alone and next to custom keywords
+        specials.append(('custom_properties keyword, unsorted', lambda: stix2.v21.Identity(name='n', custom_properties={'x_b': 1, 'x_a': 2, 'x_c': 3}), True))
+        specials.append(('custom_properties keyword, unsorted, 2.0', lambda: stix2.v20.Identity(name='n', identity_class='individual', custom_properties={'z_b': 1, 'a_a': 2}), True))
+        specials.append(('custom_properties keyword next to custom keywords', lambda: stix2.v21.Identity(name='n', x_m=0, custom_properties={'x_z': 1, 'x_a': 2}, allow_custom=True), True))
+        specials.append(('custom_properties keyword on an observable', lambda: stix2.v21.File(name='f', custom_properties={'x_b': 1, 'x_a': 2}), True))
+        specials.append(('bundle of an object built with an unsorted custom_properties keyword', lambda: stix2.v21.Bundle(stix2.v21.Identity(name='n', custom_properties={'x_b': 1, 'x_a': 2}), allow_custom=True), True))
         # untyped content kept verbatim: members holding null and [] must survive
         specials.append(('custom property holding a dictionary with null and [] members', lambda: stix2.v21.Identity(name='n', x_vf={'a': None, 'b': [], 'c': {'d': None, 'e': [None, []]}}, allow_custom=True), True))
         specials.append(('dictionary property with null / [] values', lambda: stix2.v21.EmailMessage(is_multipart=False, additional_header_fields={'X-A': [], 'X-B': ['v']}), False))
